@@ -46,6 +46,14 @@ UNITS.append(Unit(
          "the metadata OBU, then a show_existing frame header - the reset happens exactly once and before the writes "
          "whether or not metadata is present (a stale header would give two displayed frames in one temporal unit)",
     assumptions=["block slice; the writers are logging stubs (their byte-level output is not checked here)"]))
+UNITS.append(Unit(
+    uid="U02.7.packet_type", prop="C02", harness="harness/c03_packet.c", entry="h_header", mode="plain", defines=["U03_HEADER"],
+    functions=["packetization_kernel [block slice: packet header]"], slice_spec=[HDR, DRAIN], replace_calls=STUBS03,
+    keep_bodies=["verif_c03_header"], min_obligations=20, cover_functions=[], timeout=300,
+    what="the picture type reported with a packet agrees with the frame it carries: KEY exactly for a reference IDR "
+         "picture (the only frames written with a sequence header, U19.5), otherwise the slice type / non-reference "
+         "(same unit as U03.1)",
+    assumptions=["block slice: everything of the kernel outside the range is dropped"]))
 META = {"C02": {
     "level": "proof",
     "explanation": "Framing layer: inverse-pair lemmas between the encoder's writers and the decoder's readers (leb128, "
